@@ -17,7 +17,7 @@ Tie to /repo on every run (exact, Gaussian-integer data, no tolerance):
     `Circuit.unitary()` of the fused circuit against the spec.
 This module also holds the helpers shared with harness/c02.py (density matrices).
 """
-STATIC = ["C01/Props"]
+STATIC = ["C01/Props", "C01/Examples"]
 import hashlib
 import itertools
 import json
@@ -486,7 +486,9 @@ def malformed_check(run, rng, dm=False):
 
 # ------------------------------------------------------------------ fused circuits
 def fused_cases(run, rng):
-    cases = []
+    # first the witness of Props.unitary_queue_refuted, replayed on the implementation: X(0), Y(0) fused
+    cases = [{"n": 1, "gates": [named_gate(rng, 1, "X", [0], []), named_gate(rng, 1, "Y", [0], [])],
+              "init": [[1, 0], [0, 0]], "fuse": 1}]
     for i in range(12 if run.tier != "thorough" else 60):
         n = rng.choice([2, 2, 3, 3, 4])
         depth = rng.randint(3, 6)
@@ -517,14 +519,18 @@ def fused_check(run, rng):
         psi = np.array([complex(a, b) for a, b in case["init"]], dtype=complex)
         st = zvec(fc(initial_state=psi.copy()).state())
         fu = zmat(fc.unitary(backend()))
-        fm = "([" + ";".join(f"meqb (snd ({cgate(v)})) {cmat(v['M'])}" for v in view if "fused" in v) + "] : list bool)"
+        fm = "([" + ";".join(f"meqb (matrix_fused Ziops {cnats(v['ts'])} {cgates(v['fused'])}) {cmat(v['M'])}"
+                             for v in view if "fused" in v) + "] : list bool)"
+        queue = "([" + ";\n     ".join(
+            (f"QFused {cnats(v['ts'])} {cgates(v['fused'])}" if "fused" in v else f"QGate ({cgate(v)})") for v in view
+        ) + "] : list (qitem (T:=Zi)))"
         terms.append(
-            f"(let n := {n}%nat in let gs := {cgates(view)} in let its := {cintents(case['gates'])} in\n"
-            f"   let psi := {cvec(case['init'])} in let ex := {cvec(st)} in\n"
-            f"   [veqb (execute Ziops n gs psi) ex; veqb (mvmul Ziops (circ_mat Ziops n its) psi) ex;\n"
-            f"    forallb (fun b => b) {fm}; meqb (circ_mat Ziops n its) {cmat(fu)}])")
+            f"(let n := {n}%nat in let q := {queue} in let its := {cintents(case['gates'])} in\n"
+            f"   let psi := {cvec(case['init'])} in let ex := {cvec(st)} in let fu := {cmat(fu)} in\n"
+            f"   [veqb (execute_queue Ziops n q psi) ex; veqb (mvmul Ziops (circ_mat Ziops n its) psi) ex;\n"
+            f"    forallb (fun b => b) {fm}; meqb (circ_mat Ziops n its) fu; meqb (unitary_queue Ziops n q) fu])")
         metas.append((case, nfused))
-    res = eval_cases(run, f"{run.prop}_fused", terms, 4)
+    res = eval_cases(run, f"{run.prop}_fused", terms, 5)
     skipped = []
     for (case, nfused), bs in zip(metas, res):
         run.case(["fused", case], nontrivial=nfused > 0)
@@ -532,7 +538,10 @@ def fused_check(run, rng):
         if bs is None:
             run.find("coq-eval:" + key, "Coq evaluation failed", {"case": case}, concrete=False)
             continue
-        model_exec, spec_exec, fmat, funit = bs
+        model_exec, spec_exec, fmat, funit, model_unit = bs
+        if not model_unit:
+            run.find("model:" + key + ":unitary", "model of Circuit.unitary on a queue with FusedGates disagrees with the implementation",
+                     {"case": case}, concrete=False)
         if not spec_exec:
             run.find(key, "execution of the fused circuit contradicts the spec of the original circuit", {"case": case})
         elif not (model_exec and fmat):
@@ -544,7 +553,8 @@ def fused_check(run, rng):
                 run.find(key + ":unitary", "Circuit.unitary() of the fused circuit contradicts the spec", {"case": case})
     if skipped:
         case = min(skipped, key=lambda c: (len(c["gates"]), c["n"]))
-        run.refuted.append("unitary_of_fused_circuit_is_its_operator")
+        if "unitary_queue_refuted" not in run.refuted:
+            run.refuted.append("unitary_queue_refuted")
         run.find("unitary_skips_fused", "Circuit.unitary() of a fused circuit is not the operator the circuit executes "
                  "(FusedGate is a SpecialGate and is skipped)",
                  {"case": case, "mechanism": "fused", "circuits_affected_this_run": len(skipped)})
